@@ -33,7 +33,8 @@ KEEP_PREFIX = 0
 SIZES = {"quick": 1, "thorough": 5}      # passes of the dynamic harnesses (each pass = a different run order)
 RULE = ("exhaustive: every function body under pkg/adapters/** that calls sentinel.Entry (one program per distinct path through "
         "its option tests) x the six scenarios {blocked, admitted} x {handler ok, err, panic}, judged by the kernel (theorem) and by "
-        "the compiled driver; dynamic part: every driven entry point x scenario x {default rejection, custom fallback}, run order "
+        "the compiled driver; dynamic part: every driven entry point x scenario x {default rejection, custom fallback} plus the admitted scenarios "
+        "with a clock stepping backwards inside the handler (and harness-specific variants: iris forced rules, micro single options), run order "
         "shuffled from the seed; non-trivial = the pair exercises the contract (all do); distinct by (entry point key, scenario, "
         "fallback variant)")
 
@@ -146,6 +147,13 @@ def run_dyn(binary, seed):
     p = subprocess.run([binary, str(seed)], capture_output=True, text=True, timeout=300, env=core.goenv())
     lines = [l for l in p.stdout.splitlines() if l.startswith("trace ")]
     return p.returncode, lines, p.stderr[-4000:]
+
+
+def split_skipped(ls):
+    """`=> skipped`: a backstep case for which the harness obtained no two agreeing valid observations (machine load):
+    no claim is made for it."""
+    keep = [l for l in ls if not l.endswith(" => skipped")]
+    return keep, len(ls) - len(keep)
 
 
 def driver(mode, text):
@@ -313,7 +321,8 @@ def dynamic(ctx, rows):
             if rc != 0 or not ls:
                 ctx.violation(f"dyn-run-{a}.txt", f"harness {a} seed {seed} exited {rc}\n{err}", no_input=True)
                 break
-            lines += [(a, seed, l) for l in ls]
+            lines += [(a, seed, l) for l in split_skipped(ls)[0]]
+            cov["backstep_skipped"] = cov.get("backstep_skipped", 0) + split_skipped(ls)[1]
             for n in err.splitlines():
                 if n.startswith("note ") and n not in cov.setdefault("dynamic_notes", []) and len(cov["dynamic_notes"]) < 12:
                     cov["dynamic_notes"].append(n)
